@@ -1,5 +1,5 @@
 import sys, os, copy
-sys.path.insert(0,"/root/vtlstub"); import vtlstub; vtlstub.install(os.environ.get("VTL_SRC","/repo/src"))
+sys.path.insert(0,"/verif/triage"); import vtlstub; vtlstub.install(os.environ.get("VTL_SRC","/repo/src"))
 sys.argv=['x']
 import importlib.util
 spec=importlib.util.spec_from_file_location("ex","/root/vtlstub/example_pipeline.py"); ex=importlib.util.module_from_spec(spec); spec.loader.exec_module(ex)
